@@ -9,8 +9,9 @@ import Drivers.Common
            | meth PLACE M | new x | clone x y | ref x y
     PLACE := v x | p x p | i PLACE KEY
     KEY   := ki n | ks n          KOPT := ka | KEY
-    RV    := int n | null | lit LIT | rd PLACE | call PLACE
-    LIT   := li n | ln | lr PLACE | la cnt (LKEY LIT)*        LKEY := kp | ki n | ks n
+    RV    := int n | null | lit LIT | rd PLACE | call PLACE | str WORD | upd PLACE UPD
+    UPD   := concat WORD | add n | mul n | coalesce n          WORD := [a-z0-9]+ (a string's characters)
+    LIT   := li n | ln | ls WORD | lr PLACE | la cnt (LKEY LIT)*        LKEY := kp | ki n | ks n
     M     := push n | pop | shift | unshift n | sort
   → one rendering of all names per statement, joined by `|`; a statement outside the
     modelled fragment is rendered with a leading `!`.
@@ -60,6 +61,7 @@ mutual
 partial def pLit : P Lit
   | "li" :: r => (pInt r).map (fun (n, r) => (.int n, r))
   | "ln" :: r => some (.null, r)
+  | "ls" :: w :: r => some (.str (w.toList.map Char.toNat), r)
   | "lr" :: r => (pPlace r).map (fun (p, r) => (.rd p, r))
   | "la" :: r => do
     let (c, r) ← pNat r
@@ -75,7 +77,23 @@ partial def pItems : Nat → P (List (Key × Lit))
     some ((k, l) :: rest, r)
 end
 
+def pWord : P (List Nat)
+  | w :: r => some (w.toList.map Char.toNat, r)
+  | [] => none
+
+def pUpd : P Upd
+  | "concat" :: r => (pWord r).map (fun (w, r) => (.concat w, r))
+  | "add" :: r => (pInt r).map (fun (n, r) => (.add n, r))
+  | "mul" :: r => (pInt r).map (fun (n, r) => (.mul n, r))
+  | "coalesce" :: r => (pInt r).map (fun (n, r) => (.coalesce n, r))
+  | _ => none
+
 def pRV : P RV
+  | "str" :: w :: r => some (.str (w.toList.map Char.toNat), r)
+  | "upd" :: r => do
+    let (p, r) ← pPlace r
+    let (u, r) ← pUpd r
+    some (.upd p u, r)
   | "int" :: r => (pInt r).map (fun (n, r) => (.int n, r))
   | "null" :: r => some (.null, r)
   | "lit" :: r => (pLit r).map (fun (l, r) => (.lit l, r))
@@ -145,6 +163,7 @@ def showScalar : Scalar → String
   | .null => "null"
   | .int n => toString n
   | .inst h => s!"o{h}"
+  | .str cs => String.ofList (cs.map Char.ofNat)
 
 mutual
 partial def showVal : Val → String
